@@ -823,8 +823,14 @@ impl World {
                     (L4::Udp { dport, .. } | L4::Tcp { dport, .. }, Ports::FixedDest(_)) => {
                         *dport = dport.wrapping_add(delta);
                     }
-                    (L4::Udp { sport, .. } | L4::Tcp { sport, .. }, Ports::FixedBoth(_, _)) => {
-                        *sport = sport.wrapping_add(delta);
+                    (L4::Udp { sport, dport, .. } | L4::Tcp { sport, dport }, Ports::FixedBoth(_, _)) => {
+                        // another tracer may differ in either fixed port or in both
+                        if delta % 3 != 1 {
+                            *sport = sport.wrapping_add(delta);
+                        }
+                        if delta % 3 != 0 {
+                            *dport = dport.wrapping_add(delta);
+                        }
                     }
                     _ => return None,
                 }
